@@ -3,7 +3,7 @@
     From the relational specification [Spec] of the node table after the loop
     (Mgr/LevelSwapInv.v): the table is again ordered, reduced, per-level
     unique; the variable/level maps are inverse permutations with the two
-    levels exchanged.  BDD kind. *)
+    levels exchanged.  BDD and MTBDD kinds ([bink]). *)
 
 From Coq Require Import List NArith PArith Bool Arith Lia FMapPositive.
 From OxiVerif Require Import DD.Table DD.TableProofs Mgr.SortOrder Mgr.SortOrderProofs
@@ -14,7 +14,7 @@ Section Core.
 Variable s : snap.
 Variable i : nat.
 Hypothesis H : WF s.
-Hypothesis Hk : s_kind s = KBdd.
+Hypothesis Hk : bink (s_kind s).
 Hypothesis Hi : S i < nlevels s.
 
 Let s1 := level_swap_core s i.
@@ -34,8 +34,8 @@ Proof. unfold nlevels, s1, level_swap_core. simpl. apply swap_adj_length. Qed.
 Lemma term_val1 : forall t, term_val s1 t = term_val s t.
 Proof. reflexivity. Qed.
 
-Lemma kind1 : s_kind s1 = KBdd.
-Proof. exact Hk. Qed.
+Lemma kind1 : s_kind s1 = s_kind s.
+Proof. reflexivity. Qed.
 
 (** every stored node of the new table is of one of three sorts *)
 Lemma find_cases : forall id nd', PositiveMap.find id M = Some nd' ->
@@ -261,9 +261,9 @@ Proof.
   - apply swap_perm_v2l; [apply (wf_perm_len s H) | exact Hi | apply (wf_perm_v2l s H)].
   - apply swap_perm_l2v; [apply (wf_perm_len s H) | exact Hi | apply (wf_perm_l2v s H)].
   - (* arity *)
-    intros id nd' E. rewrite find1 in E. rewrite kind1. simpl.
+    intros id nd' E. rewrite find1 in E. rewrite kind1, (bink_arity _ Hk).
     destruct (find_cases id nd' E) as [[nd [E0 [D ->]]]|[[nd [c0 [c1 [e0 [e1 [E0 [D [Hc [-> [R0 R1]]]]]]]]]]|[E0 G]]].
-    + rewrite relabel_children. pose proof (wf_arity s H id nd E0) as A. rewrite Hk in A. exact A.
+    + rewrite relabel_children. pose proof (wf_arity s H id nd E0) as A. rewrite (bink_arity _ Hk) in A. exact A.
     + reflexivity.
     + destruct G as [_ [_ [x [y [Gc _]]]]]. rewrite Gc. reflexivity.
   - (* stored level *)
@@ -283,10 +283,9 @@ Proof.
     + destruct G as [A _]. lia.
   - exact wf1_child.
   - (* reduced *)
-    intros id nd' E. rewrite find1 in E. unfold reduced. rewrite kind1.
+    intros id nd' E. rewrite find1 in E. apply (bink_reduced s1 _ Hk).
     destruct (find_cases id nd' E) as [[nd [E0 [D ->]]]|[[nd [c0 [c1 [e0 [e1 [E0 [D [Hc [-> [R0 R1]]]]]]]]]]|[E0 G]]].
-    + rewrite relabel_children. pose proof (wf_reduced s H id nd E0) as R. unfold reduced in R.
-      rewrite Hk in R. exact R.
+    + rewrite relabel_children. apply (bink_reduced s _ Hk). apply (wf_reduced s H id nd E0).
     + simpl. rewrite all_same_pair. intros ->.
       destruct (dep_lows id nd c0 c1 E0 D Hc) as [A [B [C F]]].
       destruct (rep_inj _ _ _ _ _ R0 R1 A B C F) as [X Y].
